@@ -215,6 +215,8 @@ func evalGen(tier string, r *rng, emit func(string)) {
 			fam = famRegs2(r)
 		case prop == "C05" && i%2 == 1:
 			fam = famRegs(r)
+		case prop == "C07" && i%6 == 3:
+			fam = famMutExample(r)
 		case prop == "C07" && i%3 == 1:
 			fam = famPanic(r)
 		case prop == "C07" && i%3 == 2:
@@ -233,7 +235,13 @@ func evalGen(tier string, r *rng, emit func(string)) {
 			for j, t := range fam {
 				hs[j] = hx(t)
 			}
-			emit(prop + ";steps=200000;" + strings.Join(hs, "|"))
+			opts := "steps=200000"
+			if prop == "C07" && i%6 == 3 {
+				// shipped examples recurse 100000 deep and some mutations make every level cost O(depth) (info):
+				// a small depth limit and step budget keep a case within seconds
+				opts = "steps=40000,d=400"
+			}
+			emit(prop + ";" + opts + ";" + strings.Join(hs, "|"))
 			continue
 		}
 		stmts := genEvalProgram(r, 3+r.intn(8), prop == "C07", false)
